@@ -616,6 +616,54 @@ Definition binop_outer (arith_ : val -> val -> option val) (a b : val) : option 
 (** itertools.product(a, b): the pairs (x, y), x in a (outer), y in b (inner) *)
 Definition product2 (a b : list val) : list val := flat_map (fun x => map (fun y => VT [x; y]) b) a.
 
+(** x[r0:r1, c0:c1] = v ("store[,]") on a rectangular 2-D array x with R rows and C columns: a missing
+    bound (None) is 0 / R / C, given bounds must lie in 0..R / 0..C (negative bounds count from the end,
+    larger ones are clipped by numpy: outside the fragment), and v must be a 2-D array of exactly the shape
+    of the block (numpy would broadcast or raise otherwise); its elements are cast to x's type (a float
+    stored into an int array is truncated by numpy: outside the fragment) *)
+Definition slice_bound (dflt : nat) (v : val) (n : nat) : option nat :=
+  match v with
+  | VNone => Some dflt
+  | VZ z => if (0 <=? z)%Z && (z <=? Z.of_nat n)%Z then Some (Z.to_nat z) else None
+  | _ => None
+  end.
+Definition set_block_rows (rows vr : list val) (a b c d : nat) : list val :=
+  map (fun p => if Nat.leb a (fst p) && Nat.ltb (fst p) b then
+                  match snd p, nth (fst p - a) vr VNone with
+                  | VA l, VA w => VA (firstn c l ++ w ++ skipn d l)
+                  | r, _ => r
+                  end
+                else snd p)
+      (combine (seq 0 (List.length rows)) rows).
+Definition set_block (x rlo rhi clo chi v : val) : option val :=
+  match x, v with
+  | VA rows, VA _ =>
+      if rect x && rect v && negb (negb (has_Q x) && has_Q v) then
+        match shape_of x with
+        | [R; C] =>
+            match slice_bound 0 rlo R, slice_bound R rhi R, slice_bound 0 clo C, slice_bound C chi C with
+            | Some a, Some b, Some c, Some d =>
+                if Nat.leb a b && Nat.leb c d && shape_eqb (shape_of v) [b - a; d - c]%nat then
+                  match to_array (has_Q x) v with
+                  | Some (VA vr) => Some (VA (set_block_rows rows vr a b c d))
+                  | _ => None
+                  end
+                else None
+            | _, _, _, _ => None
+            end
+        | _ => None
+        end
+      else None
+  | _, _ => None
+  end.
+
+(** np.concatenate(seq) of 1-D arrays of numbers: the elements in order, one type for all (float if any is) *)
+Definition concat_arrays (l : list val) : option val :=
+  match map_opt (fun v => match v with VA e => if forallb is_scalar e then Some e else None | _ => None end) l with
+  | Some ls => match ls with [] => None | _ => to_array (existsb has_Q l) (VA (List.concat ls)) end
+  | None => None
+  end.
+
 (** builtins of the fragment, on exact numbers *)
 Definition call (f : string) (args : list val) : option (option val) :=   (* None: stuck; Some None: raises *)
   let is := String.eqb f in
@@ -896,6 +944,18 @@ Definition call (f : string) (args : list val) : option (option val) :=   (* Non
   else if is "itertools.product" then (* two sequences; rendered as a list: only iterated *)
     match args with
     | [a; b] => match seq_of a, seq_of b with Some la, Some lb => Some (Some (VL (product2 la lb))) | _, _ => None end
+    | _ => None
+    end
+  else if is "store[,]" then          (* x[r0:r1, c0:c1] = v, see [set_block] *)
+    match args with
+    | [x; rlo; rhi; clo; chi; v] => match set_block x rlo rhi clo chi v with Some r => Some (Some r) | None => None end
+    | _ => None
+    end
+  else if is "np.concatenate" then    (* a sequence of 1-D arrays *)
+    match args with
+    | [v] => match seq_of v with
+             | Some l => match concat_arrays l with Some r => Some (Some r) | None => None end
+             | None => None end
     | _ => None
     end
   else None.
